@@ -556,8 +556,17 @@ func genAPICase(t *rapid.T) APICase {
 		State: rapid.SampledFrom([]string{"empty", "started", "started", "degraded", "wo"}).Draw(t, "state"),
 		Extra: rapid.SampledFrom([]string{"initial", "closed", "closed", "open", "rebuilding"}).Draw(t, "extra"),
 	}
-	if rapid.IntRange(0, 3).Draw(t, "extrasize") == 0 {
+	addExtra := false
+	if rapid.IntRange(0, 5).Draw(t, "extrasize") == 0 {
+		// a closed stand-alone replica whose volume has another size, and a volume with a
+		// free slot: the request to add it is among the requests
 		cfg.ExtraSize = rapid.SampledFrom([]string{"bigger", "smaller"}).Draw(t, "extrasizekind")
+		cfg.Extra = "closed"
+		cfg.State = "degraded"
+		if cfg.RF < 2 {
+			cfg.RF = 2
+		}
+		addExtra = true
 	}
 	// in a third of the cases one or two of the requests the controller sends to
 	// its replicas while it serves a management request get no answer (connection closed)
@@ -580,6 +589,11 @@ func genAPICase(t *rapid.T) APICase {
 				ac.Reqs = append(ac.Reqs, r)
 			}
 		}
+	}
+	if addExtra {
+		pos := rapid.IntRange(0, len(ac.Reqs)).Draw(t, "addextrapos")
+		add := APIReq{Target: "ctrl", Method: "POST", Path: "/v1/replicas", Body: `{"address":"{addrX}"}`, Class: "wellformed", Route: "POST /v1/replicas?"}
+		ac.Reqs = append(ac.Reqs[:pos], append([]APIReq{add}, ac.Reqs[pos:]...)...)
 	}
 	// a storm of concurrent requests against one target: status reads (which take
 	// the read locks) together with mutating requests (which take the write locks)
